@@ -1129,6 +1129,12 @@ func (l *Ledger) Truncate(utxovmLastID []byte) error {
 	// 逐个分支裁剪到目标高度
 	for _, branchTip := range branchTips {
 		deletedBlockid := []byte(branchTip)
+		// what remains of a side branch below the cut is a branch of its own
+		err = l.keepSurvivingBranch(deletedBlockid, block, batchWrite)
+		if err != nil {
+			l.xlog.Warn("truncate failed when recording surviving branch", "err", err)
+			return err
+		}
 		// 裁剪到目标高度
 		err = l.removeBlocks(deletedBlockid, block.Blockid, batchWrite)
 		if err != nil {
